@@ -358,7 +358,7 @@ def run_C12(ctx):
 
 def run_C13(ctx):
     rng, quick = ctx["rng"], ctx["quick"]
-    P = props.proj_values(with_env=True, with_text=True)
+    P = props.proj_values(with_env=True, with_text=True, with_info=True)
     hist_streams(ctx, P, set(), oracle=oracles.oracle_dispatch)
     # signatures of arity 0..3 with literals and names in all positions
     params = ["a", "b", "0", "1", "2.5"]
@@ -457,6 +457,13 @@ def run_C15(ctx):
             for _ in range(4 if quick else 40):
                 cells = ",".join("#%s_#%s" % (rng.choice(SPECIAL_F + [rnd()]), rng.choice(["0000000000000000", "0000000000000000", rnd(), "3ff0000000000000"])) for _ in range(r * c))
                 cases.append("print m%d m:%d:%d:%s" % (k, r, c, cells)); k += 1
+    # rows that repeat (first = last, all equal, zero matrix): row separators must not depend on row contents
+    for r in range(2, 5):
+        for c in range(1, 4):
+            row = ["#%s_#%s" % (rng.choice(SPECIAL_F[:6] + [rnd()]), "0000000000000000") for _ in range(c)]
+            other = ["#%s_#%s" % (rnd(), "0000000000000000") for _ in range(c)]
+            for rows in ([row] * r, [row] + [other] * (r - 2) + [row], [other] * (r - 1) + [row], [row, row] + [other] * (r - 2)):
+                cases.append("print m%d m:%d:%d:%s" % (k, r, c, ",".join(x for rw in rows for x in rw))); k += 1
     for b in ctx["dump"]["builtins"]:
         cases.append("print b%d fn:%s" % (k, hx(b["key"]))); k += 1
     do_stream(ctx, "print", cases, None, oracle=oracles.oracle_reader, nontrivial=lambda pl: True)
@@ -464,7 +471,9 @@ def run_C15(ctx):
     do_stream(ctx, "fmt-display", fm, None, nontrivial=lambda pl: True)
     # computed values and listings through the statement path
     ex = ["1/3", "2/3 + i/7", "-0.1 - 0.2*i", "5 km", "(1+i) * 3 kg", "[1, 22; 333, 4444]", "[1+i, 2; 3, 4-i]", "sin", "f", "0 * -1", "i * i", "-i", "0*i",
-          "1e21", "1e-7", "100 °F as °C", "3 µm", "[0.5; 1.25]", "(0 - i) * 2 m", "1e999", "1e999 - 1e999", "-(1e999)"]
+          "1e21", "1e-7", "100 °F as °C", "3 µm", "[0.5; 1.25]", "(0 - i) * 2 m", "1e999", "1e999 - 1e999", "-(1e999)",
+          "[1,2;3,4] - [1,2;3,4]", "[1,2;3,4;1,2]", "[5;700;5]", "identity(3) * 0", "1 kg * (1e-17 + 2*i)", "3 m - 1e-20 m * i", "(1e-320 + i) * 1 B",
+          "(4.9e-324 + 4.9e-324*i) as km", "(1e999-1e999) as m", "((1e999-1e999) + i) as kg"]
     run_values_text(ctx, "computed", ex)
 
 
@@ -480,9 +489,9 @@ def run_C16(ctx):
 
 def run_C19(ctx):
     from . import front
-    front.run_front(ctx, repeat=3 if ctx["quick"] else 8, cross_modes=False, vary_env=True)
+    front.run_front(ctx, repeat=5 if ctx["quick"] else 10, cross_modes=False, vary_env=True)
     # the in-process half: hash-map order never reaches an observable (same histories, model = implementation)
-    P = props.proj_values(with_env=True, with_text=True)
+    P = props.proj_values(with_env=True, with_text=True, with_info=True)
     do_stream(ctx, "hist-random", props.hist_random(ctx["rng"], 500 if ctx["quick"] else 10000), P)
 
 
